@@ -39,6 +39,10 @@ type Solver struct {
 	logf      *os.File
 	TimeoutMS int
 	NUnknown  int
+	inline    bool
+	declLog   []declRec
+	MaxQuery  time.Duration
+	SlowQueries int
 }
 
 // NewSolver starts a solver. kind: "z3", "z3-new", "cvc5", "cvc5-int".
@@ -82,6 +86,7 @@ func NewSolver(ctx *Ctx, kind string, timeoutMS int, logPath string) (*Solver, e
 		s.send("(set-option :produce-models true)")
 		s.send(fmt.Sprintf("(set-option :timeout %d)", timeoutMS))
 	} else {
+		s.inline = true
 		s.send("(set-logic ALL)")
 	}
 	return s, nil
@@ -178,13 +183,107 @@ func (s *Solver) Push() {
 func (s *Solver) Pop() {
 	s.send("(pop 1)")
 	s.depth--
+	if s.inline {
+		// this solver forgets declarations made inside popped frames: forget them here too
+		for i := len(s.declLog) - 1; i >= 0 && s.declLog[i].depth > s.depth; i-- {
+			if s.declLog[i].uf {
+				delete(s.declUF, s.declLog[i].name)
+			} else {
+				delete(s.declVar, s.declLog[i].name)
+			}
+			s.declLog = s.declLog[:i]
+		}
+	}
+}
+
+type declRec struct {
+	name  string
+	uf    bool
+	depth int
 }
 
 func (s *Solver) Depth() int { return s.depth }
 
 func (s *Solver) Assert(t *Term) {
+	if s.inline {
+		s.send("(assert " + s.letExpr(t) + ")")
+		return
+	}
 	s.define(t)
 	s.send("(assert " + t.Ref() + ")")
+}
+
+// letExpr renders t as a self-contained expression with let-bound sharing (for solvers whose
+// define-fun does not survive pop); declarations of variables and functions are sent on the way.
+func (s *Solver) letExpr(t *Term) string {
+	if t.Op == OConst {
+		return t.Ref()
+	}
+	var order []*Term
+	seen := map[int]bool{}
+	type fr struct {
+		t *Term
+		i int
+	}
+	stack := []fr{{t, 0}}
+	for len(stack) > 0 {
+		top := &stack[len(stack)-1]
+		if top.i < len(top.t.Args) {
+			a := top.t.Args[top.i]
+			top.i++
+			if a.Op == OConst || seen[a.ID] {
+				continue
+			}
+			if a.Op == OVar {
+				if !s.declVar[a.Name] {
+					s.declVar[a.Name] = true
+					s.declLog = append(s.declLog, declRec{a.Name, false, s.depth})
+					s.send(fmt.Sprintf("(declare-const |%s| %s)", a.Name, a.S.SMT()))
+				}
+				continue
+			}
+			stack = append(stack, fr{a, 0})
+			continue
+		}
+		x := top.t
+		stack = stack[:len(stack)-1]
+		if seen[x.ID] {
+			continue
+		}
+		seen[x.ID] = true
+		if x.Op == OVar {
+			if !s.declVar[x.Name] {
+				s.declVar[x.Name] = true
+				s.declLog = append(s.declLog, declRec{x.Name, false, s.depth})
+				s.send(fmt.Sprintf("(declare-const |%s| %s)", x.Name, x.S.SMT()))
+			}
+			continue
+		}
+		if x.Op == OUF && !s.declUF[x.Name] {
+			s.declUF[x.Name] = true
+			s.declLog = append(s.declLog, declRec{x.Name, true, s.depth})
+			var as []string
+			for _, a := range x.Args {
+				as = append(as, a.S.SMT())
+			}
+			s.send(fmt.Sprintf("(declare-fun |%s| (%s) %s)", x.Name, strings.Join(as, " "), x.S.SMT()))
+		}
+		order = append(order, x)
+	}
+	if len(order) == 0 {
+		return t.Ref()
+	}
+	var sb strings.Builder
+	n := 0
+	for _, x := range order[:len(order)-1] {
+		fmt.Fprintf(&sb, "(let ((t%d %s)) ", x.ID, x.Body())
+		n++
+	}
+	sb.WriteString(order[len(order)-1].Body())
+	for i := 0; i < n; i++ {
+		sb.WriteByte(')')
+	}
+	return sb.String()
 }
 
 func (s *Solver) readLine() (string, error) {
@@ -200,7 +299,19 @@ func (s *Solver) Check() Result {
 		s.log.Flush()
 	}
 	s.Queries++
-	defer func() { s.Time += time.Since(start) }()
+	defer func() {
+		d := time.Since(start)
+		s.Time += d
+		if d > s.MaxQuery {
+			s.MaxQuery = d
+		}
+		if d > 200*time.Millisecond {
+			s.SlowQueries++
+			if s.log != nil {
+				s.log.WriteString(fmt.Sprintf("; SLOW %v\n", d))
+			}
+		}
+	}()
 	hadErr := false
 	for {
 		line, err := s.readLine()
@@ -253,33 +364,50 @@ func (s *Solver) Values(ts []*Term) (map[int]uint64, error) {
 	if len(ts) == 0 {
 		return res, nil
 	}
-	for _, t := range ts {
-		s.define(t)
+	if !s.inline {
+		for _, t := range ts {
+			s.define(t)
+		}
 	}
+	// pipeline: send every get-value first, then read the replies in order
 	for _, t := range ts {
 		q := t.Ref()
+		if s.inline {
+			q = s.letExpr(t)
+		}
 		if t.S.K == KFP {
 			// ask for the IEEE bits through a BV view: z3 supports fp.to_ieee_bv
 			q = "(fp.to_ieee_bv " + q + ")"
 		}
 		s.send("(get-value (" + q + "))")
-		if s.log != nil {
-			s.log.Flush()
-		}
-		// read a balanced s-expression
+	}
+	if s.log != nil {
+		s.log.Flush()
+	}
+	var firstErr error
+	for _, t := range ts {
 		txt, err := s.readSexp()
 		if err != nil {
 			return nil, err
 		}
 		if strings.HasPrefix(txt, "(error") {
 			s.Errors = append(s.Errors, txt)
-			return nil, fmt.Errorf("get-value: %s", txt)
+			if firstErr == nil {
+				firstErr = fmt.Errorf("get-value: %s", txt)
+			}
+			continue
 		}
 		v, err := parseValue(txt)
 		if err != nil {
-			return nil, fmt.Errorf("parse %q: %v", txt, err)
+			if firstErr == nil {
+				firstErr = fmt.Errorf("parse %q: %v", txt, err)
+			}
+			continue
 		}
 		res[t.ID] = v
+	}
+	if firstErr != nil {
+		return nil, firstErr
 	}
 	return res, nil
 }
